@@ -129,3 +129,34 @@ def strict_switch_with_slm_mask(doc: dict, params: dict) -> bool:
 
 
 MATCHERS["strict_switch_with_slm_mask"] = strict_switch_with_slm_mask
+
+
+def noise_irrelevant_runs(doc: dict, params: dict) -> bool:
+    """A noise model given runs/samples_per_run without any stochastic source."""
+
+    def specs(o):
+        if isinstance(o, dict):
+            if "runs" in o and not any(o.get(k) for k in ("state_prep_error", "temperature", "amp_sigma")):
+                yield o
+            for v in o.values():
+                yield from specs(v)
+        elif isinstance(o, list):
+            for v in o:
+                yield from specs(v)
+
+    return any(True for r in doc["trace"] for _ in specs(r["op"]))
+
+
+MATCHERS["noise_irrelevant_runs"] = noise_irrelevant_runs
+
+
+def detmap_3d_pool(doc: dict, params: dict) -> bool:
+    """A detuning map whose traps have three coordinates."""
+    for r in doc["trace"]:
+        op = r["op"]
+        if op.get("op") == "construct" and op.get("kind") == "detmap" and len(op["spec"]["layout"]["coords"][0]) == 3:
+            return True
+    return False
+
+
+MATCHERS["detmap_3d_pool"] = detmap_3d_pool
